@@ -40,7 +40,7 @@ SOAK = True   # also judged by the whole-run monitors of the soak sessions (vf/s
 BUDGET = {"quick": 110, "thorough": 1500}
 
 TIMELINES = ["cold_refuse", "latency3", "handshake", "handshake_bytes", "slow_handshake",
-             "cmd_pending",
+             "cmd_pending", "hb_overflow",
              "steady", "backoff",
              "hb_reset", "wfault", "subs", "sock_pending", "sock_backoff", "sock_stalled"]
 
@@ -165,6 +165,23 @@ async def drive(tl, gen, loop, net, log, ctx):
         except Exception:
             pass
         await asyncio.sleep(8.5)
+    elif tl == "hb_overflow":
+        # the link is down across a heartbeat tick while the buffer is full of commands
+        await asyncio.sleep(291.0)
+        net.script += [("refuse", 0.0)] * 12 + [("accept", 0.5)]
+        c = net.current()
+        if c:
+            c.transport.peer_eof()
+        await asyncio.sleep(4.0)
+        for i in range(10):
+            try:
+                if i % 2:
+                    await w.at.air_conditioners[0].set_power(api.AcPowerControl.TURN_ON)
+                else:
+                    await w.at.air_conditioners[0].zones[0].set_damper_percentage(10 + i)
+            except Exception:
+                pass
+        await asyncio.sleep(35.0)
     elif tl == "backoff":
         await asyncio.sleep(1.0)
         net.script += [("refuse", 0.0), ("refuse", 0.0), ("accept", 0.7)]
@@ -236,11 +253,15 @@ def run_once(gen, tl, trigger, reinit=False, pending=4, double=False, idle=1000.
         out["iterations"] = loop.iteration
         out["times"] = sorted({t for _, t, _, _ in log.events})
         if trigger is None:
-            # reference run: clean up and leave
-            if "at" in ctx:
-                await ctx["at"].shutdown()
-            elif "sock" in ctx:
-                await ctx["sock"].close()
+            # reference run: clean up and leave (what a shutdown at the end of the timeline
+            # does is judged by the triggered runs, not here)
+            try:
+                if "at" in ctx:
+                    await ctx["at"].shutdown()
+                elif "sock" in ctx:
+                    await ctx["sock"].close()
+            except Exception as e:  # noqa: BLE001
+                out["ref_shutdown_exc"] = repr(e)
             return
         if not out["fired"]:
             return
@@ -314,7 +335,10 @@ def run_once(gen, tl, trigger, reinit=False, pending=4, double=False, idle=1000.
             out["reinit_opens"] = sum(1 for _, _, k, d in log.since(m2) if k == "NET.open")
             out["reinit_heartbeats"] = sum(1 for t, c, k in ctx["world"].console.requests()
                                            if k == "version_request")
-            await ctx["at"].shutdown()
+            try:
+                await ctx["at"].shutdown()
+            except Exception as e:  # noqa: BLE001
+                out["sd_exc"] = repr(e)
         elif reinit:
             w = ctx["sockworld"]
             net.script.clear()
